@@ -74,6 +74,7 @@ VALUE_MAPS = {
     "big": {0: 0, 1: 10 ** 12, 2: 10 ** 12 + 1, 3: -(10 ** 10)},
     "nearfloats": {0: 0, 1: 0.1 + 0.2, 2: 0.3, 3: 1e-12},
     "negative": {0: 0, 1: -1, 2: -2, 3: 7},
+    "absorb": {0: 0, 1: 1.0, 2: 1e20, 3: 3.0},          # sums in which the small addend is absorbed (1e20 + 1.0 == 1e20): zero / non-zero patterns as for 1, 2, 3
 }
 
 
